@@ -276,6 +276,7 @@ func ReadMappingValues(remainder []byte, map_length Integer) (values *MappingVal
 	var remainder_updated []byte
 	remainder_updated, map_values, errs = parseKeyValuePairs(remainder, map_values, errs)
 	values = &map_values
+	remainder_bytes = remainder_updated
 
 	log.WithFields(logger.Fields{
 		"values_count":     len(map_values),
@@ -500,9 +501,18 @@ func shouldStopParsing(err error) bool {
 
 // hasMinimumBytesForKeyValuePair checks if there are enough bytes for another key-value pair.
 func hasMinimumBytesForKeyValuePair(remainder []byte) bool {
-	// Minimum byte length required: 2 bytes for each string length,
-	// at least 1 byte per string, one byte for =, one byte for ;
-	if len(remainder) < 6 {
+	// Minimum byte length required: one length byte per string (either string may
+	// be empty), one byte for =, one byte for ;, plus whatever the pair's own
+	// length prefixes declare.
+	need := 4
+	if len(remainder) >= need {
+		keyLen := int(remainder[0])
+		need += keyLen
+		if valLenAt := keyLen + 2; valLenAt < len(remainder) {
+			need += int(remainder[valLenAt])
+		}
+	}
+	if len(remainder) < need {
 		log.WithFields(logger.Fields{
 			"at":     "(Mapping) Values",
 			"reason": "mapping format violation",
